@@ -48,6 +48,14 @@ class StepClock:
                 self.where = f"{code.co_filename.split('/nucs/')[-1]}:{code.co_name}"
                 raise StepBudgetExceeded(self.where)
 
+    def charge(self, n, where="monitor"):
+        """Interposed events also cost simulated time (keeps a livelock of cheap passes from running for minutes)."""
+        self.count += n
+        if self.budget is not None and self.count > self.budget:
+            self.budget = None
+            self.where = where
+            raise StepBudgetExceeded(where)
+
     def set_budget(self, steps):
         self.budget = None if steps is None else self.count + steps
         self.where = None
